@@ -311,10 +311,10 @@ class Mirror:
         if not p or p not in self.sp:
             return NOSUCHSPACE, None
         parent = p[:-1]
-        if not self.can_add_space(parent, new):
-            return NAMEINUSE, None
         if not is_valid_name(new):
             return INVALIDNAME, None
+        if not self.can_add_space(parent, new):
+            return NAMEINUSE, None
         p2 = parent + (new,)
         m = self._new()
         m.sp = {}
@@ -501,11 +501,6 @@ class Mirror:
                 t.append("N3")
             if code == INVALIDNAME:
                 t.append("N4")
-            if code == NAMEINUSE and not is_valid_name(op[2]):
-                # not a defect: BOTH rejection reasons apply (the new name is invalid and taken, e.g. after model.<''> = 2).
-                # Names/Model.v answers NameInUse, the library (since fix f003354) InvalidName; nothing changes either way,
-                # but the tie compares the reason class, so these draws are left out (VERIF_SEED=2 drew one)
-                t.append("R0")
         if k == "RenameCells" and self.has_cells(s, op[2]) and is_valid_name(op[3]) and not self.in_namespace(s, op[3]):
             if any(self.has_cells(d, op[3]) for d in self.subs(s)):
                 t.append("D23")
@@ -1484,9 +1479,7 @@ def run_check(prop, tier, seed, rng):
     out.notes.append("defect triggers avoided by the generator (decidable predicates on ideal state + operation, nameslib.Mirror.triggers): "
                      "D2b (C03) D3 D11 D12 D13 D23 D34 N1 N2 N3 N4 N5 N6 N7 N8 N10; N9 (the self-check itself fails when two spaces of the tree share a "
                      "bare name) is handled in the oracle: an AssertionError of the self-check is ignored in such states, and a share of the "
-                     "histories keeps all space names distinct so that the self-checks are fully evaluated there; R0 is not a defect: "
-                     "space.rename to a name that is invalid AND taken is rejected for either reason (model: NameInUse, library: InvalidName), "
-                     "the tie compares reason classes, so these draws are left out")
+                     "histories keeps all space names distinct so that the self-checks are fully evaluated there")
     return out
 
 
